@@ -414,7 +414,7 @@ impl Prop for C19 {
         "exploration"
     }
     fn rule(&self, ctx: &Ctx) -> String {
-        format!("exhaustive: every path of <= {} segments over {{a, sub, .., ., ..., ..a, a.., empty, secret}} joined by '/', with and without a leading slash (trailing slashes = empty last segment), plus names around the .gz logic (file with sibling, file without, sibling that is a directory, sibling that is a character device, empty sibling, .gz-only name, directory with a .gz file sibling, names of 200..255 bytes - with a sibling where one fits in a directory entry; siblings older and newer than their originals); a NUL byte inserted at every position of 300 of them; x Accept-Encoding {{absent, gzip, identity, gzip;q=0, *, gzip;q=0.5 vs identity;q=0.6}} x auto_gzip on/off; on a real tree with a 'secret' file next to the base directory. Oracle: in-memory POSIX relative-path resolver (self-checked against the kernel on every non-rejected path) giving the expected (dev, inode) or errno. Every regular file opened is also turned into an entity (`into_file_entity`) and read back: its bytes must be those of the file the path names (each file contains its own path). Non-trivial = distinct (path, Accept-Encoding, auto_gzip) judged; descriptor count of the process must return to its baseline", max_segs(ctx))
+        format!("exhaustive: every path of <= {} segments over {{a, sub, .., ., ..., ..a, a.., empty, secret}} joined by '/', with and without a leading slash (trailing slashes = empty last segment), plus names around the .gz logic (file with sibling, file without, sibling that is a directory, sibling that is a character device, empty sibling, .gz-only name, directory with a .gz file sibling, names of 200..255 bytes - with a sibling where one fits in a directory entry; siblings older and newer than their originals); a NUL byte inserted at every position of 300 of them; x Accept-Encoding {{absent, gzip, identity, gzip;q=0, *, gzip;q=0.5 vs identity;q=0.6}} x auto_gzip on/off; on a real tree with a 'secret' file next to the base directory. Oracle: in-memory POSIX relative-path resolver (self-checked against the kernel on every non-rejected path) giving the expected (dev, inode) or errno. Every regular file opened is also turned into an entity (`into_file_entity`) and read back: its bytes must be those of the file the path names (each file contains its own path). Non-trivial = distinct (path, Accept-Encoding, auto_gzip) judged; descriptor count of the process must return to its baseline. One FsDir is also queried while its tree changes (sibling created, turned into a directory, removed; original removed and re-created)", max_segs(ctx))
     }
     fn n_blocks(&self, _: &Ctx) -> usize {
         12 + 1 + 1
@@ -441,6 +441,78 @@ impl Prop for C19 {
                 sink.record(v, nt, &|| desc.clone());
             }
         } else if b == 12 {
+            // a tree that changes while one FsDir serves it: a sibling appears, is replaced by a
+            // directory, disappears; the original disappears and comes back. Every answer must
+            // describe the tree as it is at that moment.
+            {
+                let tmp = TempDir::new("c19dyn");
+                let base = tmp.0.join("base");
+                std::fs::create_dir_all(base.join("d")).unwrap();
+                let fsd = FsDir::builder().auto_gzip(true).for_path(&base).expect("FsDir");
+                let mut hdrs = http::HeaderMap::new();
+                hdrs.insert(http::header::ACCEPT_ENCODING, http::HeaderValue::from_static("gzip"));
+                let ask = |p: &str| -> Result<((u64, u64), Option<&'static str>), String> {
+                    let d = fsd.clone();
+                    let (p2, h2) = (p.to_string(), hdrs.clone());
+                    match crate::util::catch(|| RT.with(|rt| rt.block_on(async move { d.get(&p2, &h2).await }))) {
+                        Err(pn) => Err(format!("panic: {}", pn)),
+                        Ok(Err(e)) => Err(format!("{:?}", e.kind())),
+                        Ok(Ok(n)) => Ok(((n.metadata().dev(), n.metadata().ino()), n.encoding())),
+                    }
+                };
+                let mut verdict = Verdict::Ok;
+                let mut steps: Vec<String> = Vec::new();
+                'outer: for name in ["p.txt", "d/q"] {
+                    let plain = base.join(name);
+                    let gz = base.join(format!("{}.gz", name));
+                    std::fs::write(&plain, b"plain").unwrap();
+                    let mut expect = |what: &str, want: Result<(&std::path::Path, bool), ()>| -> bool {
+                        let got = ask(name);
+                        steps.push(format!("{} -> {:?}", what, got));
+                        let ok = match (&got, want) {
+                            (Ok((id, enc)), Ok((p, gzipped))) => *id == id_of(p) && (*enc == Some("gzip")) == gzipped,
+                            (Err(_), Err(())) => true,
+                            _ => false,
+                        };
+                        if !ok {
+                            verdict = Verdict::viol(format!("changing-tree|{}", what.split(':').next().unwrap_or("")), format!("{} for {:?}: got {:?} (history: {:?})", what, name, got, steps));
+                        }
+                        ok
+                    };
+                    for round in 0..3 {
+                        if !expect("no-sibling: plain file expected", Ok((&plain, false))) {
+                            break 'outer;
+                        }
+                        std::fs::write(&gz, b"gz").unwrap();
+                        if !expect("sibling-created: the sibling must be substituted", Ok((&gz, true))) {
+                            break 'outer;
+                        }
+                        std::fs::remove_file(&gz).unwrap();
+                        std::fs::create_dir(&gz).unwrap();
+                        if !expect("sibling-is-now-a-directory: plain file expected", Ok((&plain, false))) {
+                            break 'outer;
+                        }
+                        std::fs::remove_dir(&gz).unwrap();
+                        std::fs::write(&gz, b"gz2").unwrap();
+                        std::fs::remove_file(&plain).unwrap();
+                        if !expect("original-removed: the sibling is still what gzip clients get", Ok((&gz, true))) {
+                            break 'outer;
+                        }
+                        std::fs::remove_file(&gz).unwrap();
+                        if !expect("both-removed: not found", Err(())) {
+                            break 'outer;
+                        }
+                        std::fs::write(&plain, format!("plain{}", round)).unwrap();
+                    }
+                }
+                if sink.admit() {
+                    let ok = matches!(verdict, Verdict::Ok);
+                    sink.record(verdict, Some(1912), &|| json!({"changing_tree_history": steps}));
+                    if ok {
+                        sink.count("changing_tree_histories");
+                    }
+                }
+            }
             // NUL at every position of 300 paths
             let _g = FD_LOCK.read().unwrap_or_else(|p| p.into_inner());
             let step = (all.len() / 300).max(1);
